@@ -360,6 +360,8 @@ def main(argv=None):
         mod = importlib.import_module(f"harness.props.{pid.lower()}")
         if a.replay:
             case = json.loads(Path(a.replay).read_text())
+            if not (isinstance(case, dict) and "case" in case):
+                case = {"case": case}      # a bare case (regress/Cxx/*.json) replays like a violation file
             mod.replay(ctx, case)
         else:
             mod.run(ctx)
